@@ -12,6 +12,7 @@ CONSTANTS
   MaxCount = 6
   AsCoded = FALSE
   Crashes = FALSE
+  Batched = TRUE
   Depth = %d
   Forks = TRUE
   Concs = TRUE
@@ -71,9 +72,14 @@ def design_proof(ctx, thorough):
 def run(ctx):
     quick = ctx.quick()
     proof = design_proof(ctx, not quick)
-    # 1. design level: the reference keeps the invariants; crash exploration is informative
+    # 1. design level: the reference keeps the invariants, also with a process death between any
+    # two store writes (save() and remove() write one batch each); with the four separate writes of
+    # the pinned tree (negative control) a death between two of them breaks them
     ref = ctx.tlc("GroupChain", cfg="GroupChain.cfg", coverage=not quick)
-    crash = ctx.tlc("GroupChain", cfg="GroupChain_crash.cfg", allow_violation=True)
+    crash = ctx.tlc("GroupChain", cfg="GroupChain_crash.cfg")
+    unbatched = ctx.tlc("GroupChain", cfg="GroupChain_crash_unbatched.cfg", allow_violation=True)
+    if not unbatched["error"]:
+        raise Inconclusive("negative control: separate store writes with crashes were not refuted by the model")
     # 2. TLC-generated call histories (model -> code)
     # (three ids at depth 4 would be 3.2 M histories: the thorough tier takes every history of two ids
     #  at depth 4 - plain, fork-switch and a large sample of the overlapping-call ones - plus every
@@ -122,8 +128,24 @@ def run(ctx):
         nrand = (6 if quick else 40) if k < (8 if quick else 16) else 0
         argvs.append([drv, "--script", sp, "--out", tp, "--scratch", os.path.join(ctx.scratch, "stores%d" % k),
                       "--random", str(nrand), "--len", str(40 if quick else 80), "--salt", str(k)])
+    # process death before every store write of the last call of a history, then a restart:
+    # every plain history that ends in an accepted add / a removal, and a sample of the fork switches
+    cr = [h for h in plain if h[-1]["op"] in ("Add", "Remove")]
+    rng.shuffle(cr)
+    cr = cr[:(400 if quick else 4000)] + forks[:(150 if quick else 2500)]
+    ncr = max(4 if quick else 16, (len(cr) * 3 + chunk - 1) // chunk)
+    for k in range(ncr):
+        sp = os.path.join(ctx.scratch, "cscript%d.json" % k)
+        json.dump(cr[k::ncr], open(sp, "w"))
+        tp = os.path.join(ctx.scratch, "ctrace%d.ndjson" % k)
+        traces.append(tp)
+        argvs.append([drv, "--script", sp, "--out", tp, "--scratch", os.path.join(ctx.scratch, "cstores%d" % k),
+                      "--crash", "--salt", str(100 + k)])
     outs = ctx.run_parallel(argvs)
     calls = sum(int(o.split("calls=")[1].split()[0]) for o in outs)
+    ncrash = sum(int(o.split("crashes=")[1].split()[0]) for o in outs)
+    if ncrash == 0:
+        raise Inconclusive("vacuity: no process death was placed inside a call")
     nhist = sum(int(o.split("histories=")[1].split()[0]) for o in outs)
     # 3. judge every trace against the specification
     total_events, tags = 0, {}
@@ -161,7 +183,8 @@ def run(ctx):
         "samples": samples,
         "design_level_inductive_invariant": proof,
         "action_coverage": ref["coverage"],
-        "crash_model_invariant_violated": bool(crash["error"]),
+        "crash_restart_cycles": ncrash,
+        "separate_writes_variant_refuted_in_model": bool(unbatched["error"]),
         "exhaustive": True,
         "explanation": "GroupChain.tla model-checked exhaustively (reference remove, Ids={1,2,3}, MaxCount=4); "
                        "every call history of the atomic alphabet to the stated depth generated by TLC and replayed on the real "
@@ -171,7 +194,8 @@ def run(ctx):
     finish(ctx, "model_checking", coverage, [
         "consensus group checks are stubbed (CheckGroup accepts): the property concerns the store, not group validity",
         "group fork switches are driven through hook export VerifGroupForkSwitch (triggerOnChain without the network, consensus checks stubbed)",
-        "restart is initGroupChain re-run in-process over the same LevelDB instance (process death mid-write is explored only in the model; the statement quantifies over restarts after operations)",
+        "restart is initGroupChain re-run in-process over the same LevelDB instance",
+        "a process death inside a call is a panic raised in the H2 hook in front of the k-th physical write of the call to the group store (k = 1.. number of writes), caught by the driver, after which the chain object is dropped and initGroupChain re-run over the stores as they are: what is in memory is lost, what was written stays; power loss (unsynced buffers) and a death inside LevelDB's own batch write are not modelled; the sqlite group index is not part of the judged state",
         "sqlite group index is present as in production",
         "lookups by height and id from six goroutines at once (no writer) after every third history, each answer compared with the single-goroutine answer taken just before",
         "overlapping calls: two AddGroup calls (or AddGroup and a removal) are both past the unlocked id check, inside consensusHelper.CheckGroup (the stub parks them), when the first one takes chain.lock; both release orders; finer schedules inside the locked sections do not exist (one mutex)",
